@@ -1,6 +1,7 @@
 """./check --setup : build the executor from files on disk, parse the specification, model-check BigNat."""
 import glob
 import os
+import re
 import subprocess
 import sys
 
@@ -29,6 +30,19 @@ def main():
         rc = 2
     else:
         print("MC_BigNat:", vlib.parse_tlc_stats(r.stdout))
+    # soundness of the witness-form contracts: five lemmas checked by the TLA+ proof system (DESIGN.md 2.1)
+    try:
+        r = subprocess.run(["tlapm", "--threads", "4", "--cleanfp", "Witness.tla"], cwd=os.path.join(vlib.SPEC, "proofs"),
+                           capture_output=True, text=True, timeout=600)
+        m = re.search(r"All (\d+) obligations proved", r.stdout + r.stderr)
+        if not m:
+            sys.stderr.write("setup: TLAPS did not prove spec/proofs/Witness.tla\n" + (r.stdout + r.stderr)[-1500:])
+            rc = 2
+        else:
+            print("spec/proofs/Witness.tla:", m.group(1), "proof obligations proved by tlapm")
+    except (OSError, subprocess.TimeoutExpired) as e:
+        sys.stderr.write(f"setup: tlapm could not be run on spec/proofs/Witness.tla: {e}\n")
+        rc = 2
     # Layer-2 models, small instances (design-level; DESIGN.md 8)
     algo = os.path.join(vlib.VERIF, "algo")
     layer2 = {}
